@@ -531,7 +531,12 @@ class FiniteAutomaton:
         >>> enfa_from_nx = EpsilonNFA.from_networkx(graph)
 
         """
-        enfa = finite_automaton.EpsilonNFA()
+        # Every state was exported as a node carrying the two marks, also
+        # the states which have no transition and no mark
+        enfa = finite_automaton.EpsilonNFA(
+            states={node for node in graph.nodes
+                    if "is_start" in graph.nodes[node]
+                    and "is_final" in graph.nodes[node]})
         for s_from in graph:
             for s_to in graph[s_from]:
                 for transition in graph[s_from][s_to].values():
